@@ -3,7 +3,7 @@
 from .. import rules_out as RO
 from .. import rules_rh as RR
 
-LEVEL = "proof"
+LEVEL = "other"
 
 EXPLANATION = (
     "rh_vector() is shown (abstract interpretation) to be str(scores()[0]) + '/' + clean_vector(); from_rh_vector is "
